@@ -59,6 +59,25 @@ func returnsGlobal(fns []*ssa.Function, name string) (bool, ssa.Instruction) {
 					return true
 				}
 			}
+		case *ssa.Call:
+			// a module helper that maps / passes the error on
+			if cal := x.Common().StaticCallee(); cal != nil && len(cal.Blocks) > 0 && cal.Signature.Results().Len() == 1 {
+				for _, ret := range core.Returns(cal) {
+					if has(ret.Results[0], d+1) {
+						return true
+					}
+				}
+			}
+		case *ssa.Extract:
+			if c, ok := x.Tuple.(*ssa.Call); ok {
+				if cal := c.Common().StaticCallee(); cal != nil && len(cal.Blocks) > 0 {
+					for _, ret := range core.Returns(cal) {
+						if x.Index < len(ret.Results) && has(ret.Results[x.Index], d+1) {
+							return true
+						}
+					}
+				}
+			}
 		}
 		return false
 	}
@@ -110,6 +129,15 @@ func c11(r *core.Run) {
 			r.Unres("K1", short+".Store.Read/Write/readTxn.Close", "method missing")
 			continue
 		}
+		idF, okID := accessorField(p, rel, "readTxn", "ID")
+		closedF, okCl := fieldByType(p, rel, "readTxn", func(t types.Type) bool {
+			b, ok := t.Underlying().(*types.Basic)
+			return ok && b.Kind() == types.Bool
+		})
+		if !okID || !okCl {
+			r.Unres("K1", short+".readTxn.<id>/<closed>", "cannot resolve the transaction's id field (returned by ID()) or its closed flag (the bool field)")
+			continue
+		}
 		if wclose == nil {
 			r.Bad("K1", short+".writeTxn", "declares-own-Close", "-", "the write transaction has no Close of its own: it would inherit the read transaction's Close and release the wrong lock mode")
 			continue
@@ -132,7 +160,7 @@ func c11(r *core.Run) {
 			for _, b := range fn.Blocks {
 				for _, in := range b.Instrs {
 					if st, ok := in.(*ssa.Store); ok {
-						if f, ok := core.FieldOf(st.Addr); ok && f.Name == "id" && st.Val == ssa.Value(fn.Params[1]) {
+						if f, ok := core.FieldOf(st.Addr); ok && f == idF && st.Val == ssa.Value(fn.Params[1]) {
 							idOK = true
 						}
 					}
@@ -159,14 +187,15 @@ func c11(r *core.Run) {
 			guard, setFlag, keyOK := false, false, true
 			if good {
 				for _, ed := range dominatingEdges(rel) {
-					if strings.HasSuffix(describeCond(ed), "readTxn.closed") && strings.HasPrefix(describeCond(ed), "!") {
+					cnd, succ := ed.Norm()
+					if f, ok := core.LoadedField(cnd); ok && f == closedF && succ == 1 {
 						guard = true
 					}
 				}
 				for _, b := range fn.Blocks {
 					for _, in := range b.Instrs {
 						if st, ok := in.(*ssa.Store); ok && isConstBool(st.Val, true) {
-							if f, ok := core.FieldOf(st.Addr); ok && f.Name == "closed" && core.Dominates(st, rel) {
+							if f, ok := core.FieldOf(st.Addr); ok && f == closedF && core.Dominates(st, rel) {
 								setFlag = true
 							}
 						}
@@ -174,7 +203,7 @@ func c11(r *core.Run) {
 				}
 				if len(rel.Common().Args) == 2 {
 					f, ok := core.LoadedField(rel.Common().Args[1])
-					keyOK = ok && f.Name == "id"
+					keyOK = ok && f == idF
 				}
 			}
 			isPtrRecv := false
@@ -215,7 +244,11 @@ func c11(r *core.Run) {
 						continue
 					}
 					if _, isPtr := m.Signature.Recv().Type().(*types.Pointer); isPtr {
-						live[m.Name()] = true
+						// a pointer-receiver helper whose every call site passes the address of
+						// a value receiver's local copy writes nothing that outlives the caller
+						for _, w := range persistentWriters(p, m, map[*ssa.Function]bool{}) {
+							live[w] = true
+						}
 					}
 				}
 				if len(live) == 0 {
@@ -250,7 +283,7 @@ func c11(r *core.Run) {
 				if !ok1 {
 					for _, f2 := range all {
 						for _, c := range core.Calls(f2) {
-							if cal := c.Common().StaticCallee(); cal != nil && cal.Name() == "getValue" {
+							if cal := c.Common().StaticCallee(); cal != nil && len(cal.Blocks) > 0 && cal.Pkg == m.Pkg && !ok1 {
 								ok1, _ = returnsGlobal(withAnon(cal), "ErrNotFound")
 							}
 						}
@@ -285,7 +318,7 @@ func c11(r *core.Run) {
 			for _, b := range cr.Blocks {
 				if iff, ok := b.Instrs[len(b.Instrs)-1].(*ssa.If); ok {
 					ci := core.Cond(iff.Cond)
-					if ci.Kind == "constcmp" && ci.HasFld && ci.Field.Name == "id" && ci.Const != nil && ci.Const.ExactString() == `""` {
+					if ci.Kind == "constcmp" && ci.HasFld && ci.Field == idF && ci.Const != nil && ci.Const.ExactString() == `""` {
 						guards = append(guards, iff)
 					}
 				}
@@ -319,7 +352,7 @@ func c11(r *core.Run) {
 			if m == nil {
 				continue
 			}
-			c11Callbacks(r, rel, n, m)
+			c11Callbacks(r, rel, n, m, idF)
 		}
 	}
 
@@ -344,28 +377,50 @@ func c11(r *core.Run) {
 			continue
 		}
 		if n != "Delete" {
-			// type check: a return on Type() != t edge dominates upd
+			// type check: an If comparing reflect.Type values - in the method or in a helper whose
+			// result the method tests - has an edge that dominates the transaction
+			isRT := func(v ssa.Value) bool { return types.TypeString(v.Type(), nil) == "reflect.Type" }
+			mayCmp := mayExec(p.FuncsOfPkg("store/badgerstore"), func(in ssa.Instruction) bool {
+				bo, ok := in.(*ssa.BinOp)
+				return ok && (bo.Op == token.EQL || bo.Op == token.NEQ) && isRT(bo.X)
+			})
 			tg := false
 			for _, ed := range dominatingEdges(upd) {
-				if c, ok := core.Strip(core.Cond(ed.If.Cond).X).(*ssa.Call); ok && strings.Contains(core.CalleeName(c), "reflect.Value.Type") || strings.Contains(describeCond(ed), "reflect") {
-					tg = true
+				cnd, _ := ed.Norm()
+				bo, ok := cnd.(*ssa.BinOp)
+				if !ok {
+					continue
 				}
-				if bo, ok := ed.If.Cond.(*ssa.BinOp); ok {
-					if c, ok := bo.X.(*ssa.Call); ok && c.Common().StaticCallee() != nil && c.Common().StaticCallee().Name() == "Type" {
+				for _, op := range []ssa.Value{bo.X, bo.Y} {
+					if isRT(op) {
 						tg = true
+					}
+					op = core.Strip(op)
+					if ex, ok := op.(*ssa.Extract); ok {
+						op = ex.Tuple
+					}
+					if c, ok := op.(*ssa.Call); ok {
+						if cal := c.Common().StaticCallee(); cal != nil && mayCmp[cal] {
+							tg = true
+						}
 					}
 				}
 			}
 			r.Check(tg, "C2", core.FuncName(m), "type-check-dominates-transaction", p.InstrPos(upd), "a value of the wrong dynamic type is rejected before any transaction starts", "the dynamic type check does not dominate the database transaction")
 		}
 		// veto inside closure, before the write, error returned
+		vetoFns := fanoutFuncs(p, "store/badgerstore", "BeforeChange")
+		mayWrite := mayExec(p.FuncsOfPkg("store/badgerstore"), func(in ssa.Instruction) bool {
+			c, ok := in.(ssa.CallInstruction)
+			return ok && isTxnWrite(c)
+		})
 		var veto, wr ssa.CallInstruction
 		for _, c := range core.Calls(cl) {
 			if cal := c.Common().StaticCallee(); cal != nil {
-				switch cal.Name() {
-				case "callBeforeChange":
+				switch {
+				case vetoFns[cal]:
 					veto = c
-				case "setValue", "Delete", "Set":
+				case isTxnWrite(c) || mayWrite[cal]:
 					wr = c
 				}
 			}
@@ -376,7 +431,7 @@ func c11(r *core.Run) {
 			good = false
 			for _, ed := range dominatingEdges(wr) {
 				ci := core.Cond(ed.If.Cond)
-				if ci.Kind == "nilcmp" && ci.X == veto.Value() {
+				if ci.Kind == "nilcmp" && (ci.X == veto.Value() || sameCellLoadOfCall(ci.X, veto)) {
 					truth := ed.Succ == 0
 					if ci.Negate {
 						truth = !truth
@@ -392,15 +447,20 @@ func c11(r *core.Run) {
 }
 
 // c11Callbacks runs the callback-count typestate on one mutation method.
-func c11Callbacks(r *core.Run, rel, name string, m *ssa.Function) {
+func c11Callbacks(r *core.Run, rel, name string, m *ssa.Function, idF core.Field) {
 	p := r.P
+	fan := fanoutFuncs(p, rel, "OnChange")
+	if len(fan) == 0 {
+		r.Unres("C1", core.FuncName(m), "no function fans out to the listeners registered with Store.OnChange")
+		return
+	}
 	isFanout := func(in ssa.Instruction) bool {
 		c, ok := in.(*ssa.Call)
 		if !ok {
 			return false
 		}
 		cal := c.Common().StaticCallee()
-		return cal != nil && cal.Name() == "callOnChange"
+		return cal != nil && fan[cal]
 	}
 	// no fan-out inside closures of the method (would run inside the uncommitted transaction)
 	for _, a := range m.AnonFuncs {
@@ -461,9 +521,22 @@ func c11Callbacks(r *core.Run, rel, name string, m *ssa.Function) {
 		}
 		r.Check(okEdge, "C1", core.FuncName(m), "fanout-on-success-edge", p.InstrPos(c), "callbacks run only after the mutation's error was observed nil", "callbacks are not dominated by the success edge of the mutation")
 		args := c.Common().Args // recv, id, before, after
-		idf, idok := core.LoadedField(args[1])
-		// value receivers are spilled: id may be loaded through the local copy
-		r.Check(idok && idf.Name == "id", "C1", core.FuncName(m), "fanout-arg-id=txn.id", p.InstrPos(c), "id is the transaction's id", "callbacks get "+valDesc(args[1])+" as id")
+		// the transaction's id, or (mock store, empty id) the id generated through the store's hook
+		idok := true
+		nID := 0
+		for _, lf := range valueLeaves(args[1], nil, 0) {
+			if f, ok := core.LoadedField(lf.V); ok && f == idF {
+				nID++
+				continue
+			}
+			if c, ok := lf.V.(*ssa.Call); ok && core.IsDynamic(c) {
+				if _, isFld := core.LoadedField(c.Common().Value); isFld {
+					continue // generated by a hook field of the store
+				}
+			}
+			idok = false
+		}
+		r.Check(idok && nID > 0, "C1", core.FuncName(m), "fanout-arg-id=txn.id", p.InstrPos(c), "id is the transaction's id", "callbacks get "+valDesc(args[1])+" as id")
 		beforeNil := isNilConst(args[2])
 		afterNil := isNilConst(args[3])
 		afterParam := len(m.Params) > 1 && paramOrItsCell(core.Strip(args[3]), m.Params[1])
@@ -595,4 +668,118 @@ func paramOrItsCell(v ssa.Value, prm *ssa.Parameter) bool {
 		}
 	}
 	return n == 1
+}
+
+// sameCellLoadOfCall: v is a load of a cell whose reaching store is the
+// result of call c (err = f(); if err != nil ...).
+func sameCellLoadOfCall(v ssa.Value, c ssa.CallInstruction) bool {
+	u, ok := v.(*ssa.UnOp)
+	if !ok || u.Op != token.MUL {
+		return false
+	}
+	// the closest preceding store to the cell in the same block is the call's value
+	blk := u.Block()
+	var last *ssa.Store
+	for _, in := range blk.Instrs {
+		if in == ssa.Instruction(u) {
+			break
+		}
+		if st, ok := in.(*ssa.Store); ok && st.Addr == u.X {
+			last = st
+		}
+	}
+	return last != nil && c.Value() != nil && last.Val == ssa.Value(c.Value())
+}
+
+// persistentWriters: the top-level methods through which a store performed
+// by pointer-receiver method m outlives the call. A private helper whose
+// every call site passes the address of a value receiver's local copy (or of
+// another local) contributes nothing.
+func persistentWriters(p *core.Prog, m *ssa.Function, seen map[*ssa.Function]bool) []string {
+	if seen[m] {
+		return nil
+	}
+	seen[m] = true
+	callers := p.CallersOf(m)
+	if (m.Object() != nil && m.Object().Exported()) || p.AddrTaken(m) || len(callers) == 0 {
+		return []string{m.Name()}
+	}
+	var out []string
+	for _, c := range callers {
+		if len(c.Common().Args) == 0 {
+			out = append(out, m.Name())
+			continue
+		}
+		root := c.Common().Args[0]
+		for {
+			if fa, ok := root.(*ssa.FieldAddr); ok {
+				root = fa.X
+				continue
+			}
+			if fv, ok := root.(*ssa.FreeVar); ok {
+				if b := core.BindingOf(fv); b != nil {
+					root = b
+					continue
+				}
+			}
+			break
+		}
+		if _, isLocal := root.(*ssa.Alloc); isLocal {
+			continue // a local copy: the write dies with the caller's frame
+		}
+		caller := core.Outermost(c.Parent())
+		if caller.Signature.Recv() != nil {
+			if _, isPtr := caller.Signature.Recv().Type().(*types.Pointer); isPtr && len(caller.Params) > 0 && root == ssa.Value(caller.Params[0]) {
+				out = append(out, persistentWriters(p, caller, seen)...)
+				continue
+			}
+		}
+		out = append(out, caller.Name())
+	}
+	return out
+}
+
+// fanoutFuncs: the declared functions of package rel that call the listeners
+// registered through the exported Store method named setter (they load the
+// field that setter stores into and make a dynamic call).
+func fanoutFuncs(p *core.Prog, rel, setter string) map[*ssa.Function]bool {
+	out := map[*ssa.Function]bool{}
+	m := methodNamed(p, rel, "Store", setter)
+	if m == nil {
+		return out
+	}
+	var fld core.Field
+	found := false
+	for _, b := range m.Blocks {
+		for _, in := range b.Instrs {
+			if st, ok := in.(*ssa.Store); ok {
+				if f, ok := core.FieldOf(st.Addr); ok {
+					fld, found = f, true
+				}
+			}
+		}
+	}
+	if !found {
+		return out
+	}
+	for _, fn := range p.FuncsOfPkg(rel) {
+		if fn == m || fn.Parent() != nil {
+			continue
+		}
+		dyn := false
+		for _, c := range core.Calls(fn) {
+			if core.IsDynamic(c) {
+				dyn = true
+			}
+		}
+		if !dyn {
+			continue
+		}
+		for _, ac := range core.FieldAccesses([]*ssa.Function{fn}, func(g core.Field) bool { return g == fld }) {
+			if ac.Kind == "load" {
+				out[fn] = true
+			}
+		}
+	}
+	return out
 }
